@@ -69,7 +69,7 @@ func (m *Mixer) Mix(o MixOpts) []MixTx {
 		other := n.AcctKeys[(m.Rng.Intn(nSenders)+1)%len(n.AcctKeys)]
 		m.fresh++
 		to := n.FreshAddr(m.fresh)
-		k := m.failKind % 8
+		k := m.failKind % 9
 		m.failKind++
 		switch k {
 		case 0:
@@ -93,6 +93,13 @@ func (m *Mixer) Mix(o MixOpts) []MixTx {
 			out = append(out, MixTx{"fail:unstake-unknown", n.UnstakeTx(from, Addr(from), minFee, o.Height), false})
 		case 6:
 			out = append(out, MixTx{"fail:wrongchain", WithChainId(n, from, to, 2, o.Height), false})
+		case 8:
+			// a valid signed send whose bytes are re-encoded with the same content and the same length but the
+			// top-level fields in another order: not the canonical encoding, never to be included
+			modes := []string{"swap-last-two", "reverse", "rotate"}
+			if raw := ReencodePermuted(n.SendTx(from, to, 5, minFee+uint64(m.Rng.Intn(3))*1000, o.Height, ""), modes[m.Rng.Intn(3)]); raw != nil {
+				out = append(out, MixTx{"fail:noncanon-permuted", raw, false})
+			}
 		case 7:
 			out = append(out, MixTx{"fail:stake-insufficient", n.StakeTx(n.ValKeys[0], detBLS(n.Seed, "ghost", m.fresh).PublicKey().Bytes(), Addr(n.ValKeys[0]), 1<<61, minFee, o.Height, false), false})
 		}
